@@ -441,6 +441,17 @@ def stub_create(cx, clsobj, path, truncate=False, **kw):
     return ds
 
 
+def stub_ctor(cx, path, mode="r", **kw):
+    """`IH5MFRecord(path, mode)` / `cls(path, mode)` by the mode table of IH5Record.__init__ (InitModes, C03: create-only-when-asked,
+    only-w-replaces): 'w' is `_create(path, truncate=True)`, 'x' / 'w-' are `_create(path, truncate=False)`."""
+    m = mode
+    if isinstance(m, SVal) and hasattr(m, "t") and z3.is_string_value(z3.simplify(m.t)):
+        m = z3.simplify(m.t).as_string()
+    if kw or not isinstance(m, str) or m not in ("w", "x", "w-"):
+        raise Unsupported(f"IH5MFRecord constructor with mode {mode!r}")
+    return stub_create(cx, None, path, truncate=(m == "w"))
+
+
 def stub_commit(cx, ds, **kw):
     extra = set(kw) - {"__is_stub__", "manifest_exts"}
     if extra:
@@ -515,6 +526,7 @@ def add_manifest(reg):
     reg.method_bindings[("IH5MFRecord", "super.merge_files")] = super_merge
     reg.attr_bindings[("IH5MFRecord", "ih5_meta")] = ih5_meta_of
     reg.method_bindings[("IH5MFRecord", "_create")] = stub_create
+    reg.ctors["IH5MFRecord"] = stub_ctor
     reg.method_bindings[("IH5MFRecord", "commit_patch")] = stub_commit
     reg.attr_bindings[("IH5MFRecord", "_has_writable")] = lambda cx, o: SBool(z3.BoolVal(not getattr(o, "committed", False)))
     specs = [MFCommit(), MFOpen(), MFCheckUblock(), MFMerge(), CreateStub(), FixesAfterMerge()]
